@@ -385,8 +385,12 @@ def debug_logging(on=True):
     lg = logging.getLogger("aioesphomeapi")
     old = (lg.level, lg.propagate, list(lg.handlers))
     disabled = logging.root.manager.disable
+    others = [logging.getLogger(n) for n in ("asyncio", "zeroconf")]
+    others_state = [o.disabled for o in others]
     if on:
         logging.disable(logging.NOTSET)       # setup_impl_path() silences the library; lift that for the duration
+        for o in others:
+            o.disabled = True                 # ... but keep everybody else quiet
         lg.setLevel(logging.DEBUG)
         lg.propagate = False
         lg.handlers = [logging.NullHandler()]
@@ -397,6 +401,8 @@ def debug_logging(on=True):
         lg.propagate = old[1]
         lg.handlers = old[2]
         logging.disable(disabled)
+        for o, st in zip(others, others_state):
+            o.disabled = st
 
 
 def setup_impl_path():
